@@ -74,7 +74,7 @@ def get_utility_and_feasibility_function(
         | get_union_of_arguments(relevant_functions)
         | set(variable_info.index)
     ) - {"_period"}
-    arg_names = [arg for arg in arg_names if "next_" not in arg]  # type: ignore[assignment]
+    arg_names = [arg for arg in arg_names if not arg.startswith("next_")]  # type: ignore[assignment]
 
     if is_last_period:
 
